@@ -238,8 +238,24 @@ def conveyor(props=("C12", "C13"), kind="cconv", acc=1, cap=3, n_items=3, consum
         items = [items[k] for k in entry_seq] + [it for k, it in enumerate(items) if k not in rank]
         n_in = len(E)
         # context flags for signatures: entries squeezed together inside the 1e-5 admission tolerance; consumer holding a granted reservation
-        squeezed = any(ctx.lt(E[k] - E[k - 1], spacing) for k in range(1, n_in))
-        tag = tag[:-1] + (",tolerance-squeezed-entries" if squeezed else "") + (",held-reservation" if consumer == "hold" else "") + "]"
+        def _near_grid(x):
+            # within a few admission tolerances (2e-4) of - but not exactly on - a multiple of the entry spacing
+            for mlt in range(1, 2 * capacity + 3):
+                d = x - mlt * spacing
+                if ctx.lt(d, 0):
+                    d = -d
+                if ctx.lt(0, d) and ctx.le(d, 2e-4):
+                    return True
+            return False
+        base_tag = tag[:-1] + (",held-reservation" if consumer == "hold" else "")
+        _sq = {}
+
+        def tolerance_tag():
+            # evaluated only when a finding is about to be reported (the comparisons would otherwise fork every path)
+            if "v" not in _sq:
+                _sq["v"] = any(_near_grid(E[k] - E[j]) for k in range(n_in) for j in range(k))
+            return base_tag + (",entries-within-tolerance-of-the-slot-grid" if _sq["v"] else "") + "]"
+        tag = base_tag + "]"
         if n_in < n_items:
             # the producer is still waiting for admission at the end: the belt must be full or blocked
             F.soft(f"C13:item-never-admitted@{tag}", {"admitted": n_in})
